@@ -4,6 +4,7 @@ Exhaustive: syntax-tree extraction + constant folding (+ the abstract
 interpreter for effective constructor defaults) against /verif/spec.
 """
 import ast
+import os
 import re
 
 from .. import interp as I
@@ -36,6 +37,75 @@ def listify(ctx, v, what):
     if v is I.ABSENT:
         return None
     return ctx.list_value(it, ctx.new_state(), v, what)
+
+
+CATALOGUE_ATTRS = {'frame_id', 'index', 'name', 'synchronous',
+                   'valid_responses', '__slots__', 'flags',
+                   '__annotations__'}
+# distinctive enough to be flagged on a receiver of unknown type
+DISTINCTIVE = {'frame_id', 'synchronous', 'valid_responses', '__slots__'}
+
+
+def shadow_writes(prog, slotnames):
+    """Stores / deletes / setattr of a catalogue attribute name.
+    -> ([(site, what)], number of store sites looked at)"""
+    frame_roots = [prog.classes.get('pamqp.base._AMQData'),
+                   prog.classes.get('pamqp.base.Frame'),
+                   prog.classes.get('pamqp.base.BasicProperties')]
+    frame_roots = [c for c in frame_roots if c is not None]
+
+    def is_frame_cls(ci):
+        return isinstance(ci, ClassInfo) and any(
+            prog.is_subclass(ci, r) for r in frame_roots)
+
+    def catalogue(name):
+        return name in CATALOGUE_ATTRS or (
+            name.startswith('_') and not name.startswith('__') and
+            name[1:] in slotnames)
+
+    hits, n = [], 0
+    for fi in prog.functions.values():
+        a = getattr(fi.node, 'args', None)
+        params = [x.arg for x in (a.posonlyargs + a.args)] if a else []
+        in_frame = fi.owner is not None and is_frame_cls(fi.owner)
+        first = params[0] if params and fi.kind != 'staticmethod' and \
+            fi.owner is not None else None
+        for node in ast.walk(fi.node):
+            site = '%s:%d' % (fi.module.relpath, getattr(node, 'lineno', 0))
+            if isinstance(node, ast.Attribute) and \
+                    isinstance(node.ctx, (ast.Store, ast.Del)):
+                n += 1
+                if not catalogue(node.attr):
+                    continue
+                base = node.value
+                r = prog.resolve_static(fi.module, base, fi.module)
+                frame_recv = (in_frame and isinstance(base, ast.Name) and
+                              base.id == first) or is_frame_cls(r) or (
+                    isinstance(base, ast.Attribute) and
+                    base.attr == '__class__') or (
+                    isinstance(base, ast.Call) and
+                    isinstance(base.func, ast.Name) and
+                    base.func.id == 'type')
+                unknown = not isinstance(r, ClassInfo) and \
+                    not hasattr(r, 'tree') and not (
+                        isinstance(base, ast.Name) and base.id == first
+                        and not in_frame)
+                if frame_recv or (unknown and (
+                        node.attr in DISTINCTIVE or
+                        node.attr.startswith('_'))):
+                    hits.append((site, '%s in %s' % (
+                        ast.unparse(node), fi.short)))
+            elif isinstance(node, ast.Call) and \
+                    isinstance(node.func, ast.Name) and \
+                    node.func.id in ('setattr', 'delattr') and \
+                    len(node.args) >= 2:
+                n += 1
+                nm = node.args[1]
+                if isinstance(nm, ast.Constant) and \
+                        isinstance(nm.value, str) and catalogue(nm.value):
+                    hits.append((site, '%s in %s' % (
+                        ast.unparse(node)[:60], fi.short)))
+    return hits, n
 
 
 def doc_defaults(ci):
@@ -208,7 +278,15 @@ def run(chk, ctx):
                'synchronous = %r' % (sync,), detail={'expected': m.sync},
                site=site)
         vr = listify(ctx, const_attr(ctx, ci, 'valid_responses'),
-                     q + '.valid_responses') or []
+                     q + '.valid_responses')
+        if vr is None:
+            chk.ob('C14.A', q + '.valid_responses', False,
+                   'no valid_responses attribute is bound in the class or '
+                   'any base (reading it raises AttributeError)',
+                   detail={'expected': ['%s.%s' % (camel(m.cls.name),
+                                                   camel(r))
+                                        for r in m.replies]}, site=site)
+            vr = []
         want_vr = ['%s.%s' % (camel(m.cls.name), camel(r))
                    for r in m.replies]
         chk.ob('C14.A', q + '.valid_responses',
@@ -325,6 +403,83 @@ def run(chk, ctx):
     chk.ob('C14.W', 'run-time writers of the catalogue', not writes,
            'no function stores into INDEX_MAPPING or a class table'
            if not writes else '; '.join(writes[:3]))
+    # ... and no instance shadows a catalogue attribute of its class
+    chk.rule('C14.I', 'catalogue attributes (frame_id, index, name, '
+             'synchronous, valid_responses, __slots__, flags, _<argument> '
+             'wire types) are never stored on or deleted from a frame '
+             'object, a frame class or cls by any function, and the dynamic '
+             'setattr sites reached from marshal / unmarshal write argument '
+             'names only')
+    slotnames = set()
+    for m in spec.methods():
+        slotnames.update(a.py_name for a in m.args)
+    slotnames.update(p[1] for p in spec.properties())
+    hits, nstores = shadow_writes(prog, slotnames)
+    chk.ob('C14.I', 'attribute stores', not hits,
+           '%d attribute stores / deletes / setattr calls scanned in %d '
+           'functions' % (nstores, len(prog.functions)) if not hits else
+           '; '.join('%s at %s' % h[::-1] for h in hits[:3]))
+    for site_, what in hits:
+        chk.ob('C14.I', what, False, 'shadows a catalogue attribute',
+               site=site_)
+    # dynamic sites: effects of the abstract marshal / unmarshal runs
+    from .. import codec
+    from .. import framepaths as F
+    from .. import layout as L
+    pol = codec.FramePolicy(prog)
+    dyn_bad = []
+    nruns = 0
+    for k, ci in ctx.index_mapping():
+        if not isinstance(ci, ClassInfo):
+            continue
+        slots = set(ctx.slots_of(ci))
+        e = L.method_encode(ctx, pol, ci)
+        f = F.UnmarshalFacts(ctx, k, assume_type=1)
+        nruns += 2
+        for where, it_ in (('marshal', e['interp']), ('unmarshal', f.it)):
+            for ef in it_.effects:
+                if ef.kind == 'setattr' and isinstance(ef.detail, tuple):
+                    nm_ = ef.detail[0]
+                    if nm_ in slots:
+                        continue
+                    if nm_ in CATALOGUE_ATTRS or (
+                            isinstance(nm_, str) and nm_.startswith('_')
+                            and nm_[1:] in slotnames):
+                        dyn_bad.append('%s(%s) sets .%s at %s' % (
+                            where, ci.short, nm_, ef.site))
+                elif ef.kind in ('setattr-dynamic', 'setattr-sym'):
+                    dyn_bad.append('%s(%s): %s %s at %s' % (
+                        where, ci.short, ef.kind, ef.detail, ef.site))
+    chk.ob('C14.I', 'setattr effects of marshal / unmarshal', not dyn_bad,
+           '%d abstract runs, every attribute written is an argument name'
+           % nruns if not dyn_bad else '; '.join(sorted(set(dyn_bad))[:3]))
+    # positive control: the scan must flag a file with known writers
+    ctl = os.path.join(os.path.dirname(os.path.dirname(os.path.dirname(
+        os.path.abspath(__file__)))), 'selftest', 'controls')
+    tmp = None
+    try:
+        import shutil
+        import tempfile
+        from ..model import Program
+        tmp = tempfile.mkdtemp(prefix='c14ctl-')
+        shutil.copytree(prog.pkg_dir,
+                        os.path.join(tmp, 'pamqp'))
+        shutil.copy(os.path.join(ctl, 'shadow_writes.py'),
+                    os.path.join(tmp, 'pamqp', 'shadow_writes.py'))
+        cprog = Program(tmp)
+        chits, _n = shadow_writes(cprog, slotnames)
+    except Exception as err:
+        raise AnalysisError('positive control could not be analysed: %s' %
+                            err)
+    finally:
+        if tmp is not None:
+            shutil.rmtree(tmp, ignore_errors=True)
+    chits = [h for h in chits if 'shadow_writes.py' in h[0]]
+    if len(chits) < 5:
+        raise AnalysisError('positive control: only %d of 5 shadowing '
+                            'stores were flagged' % len(chits))
+    chk.extra['positive_control'] = {
+        'file': 'selftest/controls/shadow_writes.py', 'flagged': len(chits)}
     chk.units['classes'] = len(list(spec.methods())) + 1 + len(spec.classes)
     chk.assume('the transcribed specification table is correct (it was '
                'written from the AMQP 0-9-1 / RabbitMQ documents, not from '
